@@ -42,7 +42,7 @@ REQUIRED = ["at_most_once_atomic", "at_most_one_success_atomic", "at_most_one_su
             "validateNonce_refines_threads", "vp_response_at_most_once_all_schedules", "handleReqObj_refines_thread", "request_object_at_most_once_all_schedules",
             "every_endpoint_refines_its_threads", "any_endpoints_at_most_once_all_schedules",
             "handlePreAuth_refines_thread", "preauth_at_most_once_all_schedules", "dead_after_burn_all_in_every_schedule",
-            "honoured_request_means_every_thread_honoured"]
+            "honoured_request_means_every_thread_honoured", "fact_call_column_prefixes"]
 
 
 def oracle(op, line, facts):
